@@ -106,6 +106,19 @@ def intersect(a: IMAPClientCommand, b: IMAPClientCommand) -> bool:
     return bool(set_a.intersection(set_b))
 
 
+####################################################################
+#
+def _check_keywords_storable(flags: list[str] | None) -> None:
+    """
+    Keyword flags are stored as MH sequence names. A ':' can not be part of
+    a sequence name: it makes the folder's .mh_sequences unparseable and every
+    later command on the mailbox fails.
+    """
+    for flag in flags or []:
+        if ":" in flag:
+            raise No(f"'{flag}' can not be used as a keyword flag")
+
+
 ##################################################################
 ##################################################################
 #
@@ -1954,6 +1967,7 @@ class Mailbox:
 
         # Make sure we convert the IMAP flags to the accepted mh sequences.
         #
+        _check_keywords_storable(flags)
         seqs = flags_to_seqs(flags)
 
         # If `Seen` is *NOT* in the sequences, then we need to add `unseen`
@@ -2542,6 +2556,7 @@ class Mailbox:
 
         if r"\Recent" in flags:
             raise No(r"You can not add or remove the '\Recent' flag")
+        _check_keywords_storable(flags)
 
         if action not in StoreAction:
             raise Bad(f"'{action}' is an invalid STORE action")
